@@ -27,6 +27,7 @@
 //!   result per connection: l_len l_ok l_end t_len t_ok t_end
 //!     (len = bytes received, ok = they are exactly the peer's byte stream so far, end: 1 clean EOF,
 //!      2 error/reset, 0 still open after the timeout)
+//! stalled reader: 1 5 entry n    (see `stalled_reader`)
 //! slow UDP:  1 3 entry n gap_ms   (see `slow_udp`)
 //! UDP burst: 1 4 entry n          (see `burst_udp`)
 //! UDP case:  1 2 entry shared nclients (n size_1..size_n)*
@@ -198,6 +199,17 @@ async fn target_conn(mut s: TcpStream, scripts: Scripts, obs: ObsMap) {
             write_chunks(&mut w, &data, &sc.t_chunks).await;
             Obs { len: 0, ok: 1, end: 0 }
         }
+        11 => {
+            // a long stream of small chunks, each sent on its own (1 ms apart), then close
+            for (i, &c) in sc.t_chunks.iter().enumerate() {
+                let off = i * c;
+                if tokio::time::timeout(TMO, w.write_all(&data[off..off + c])).await.map_or(true, |r| r.is_err()) {
+                    break;
+                }
+                tokio::time::sleep(Duration::from_millis(1)).await;
+            }
+            Obs { len: 0, ok: 1, end: 0 }
+        }
         8 => {
             // answer, half-close, then keep reading: the local client sends its data only now and keeps its side open
             write_chunks(&mut w, &data, &sc.t_chunks).await;
@@ -265,6 +277,9 @@ async fn target_conn(mut s: TcpStream, scripts: Scripts, obs: ObsMap) {
 /// what a slow UDP client needs of the world (so that it can run as a task beside the other cases)
 #[derive(Clone)]
 struct SlowCtx {
+    tcp_port: u16,
+    scripts: Scripts,
+    obs: ObsMap,
     udp_port: u16,
     socks_port: u16,
     target_udp: u16,
@@ -340,6 +355,36 @@ async fn slow_udp(cx: SlowCtx, entry: u64, n: u64, gap_ms: u64, tag: u32) -> Vec
     drop(control);
     let got = *cx.udp_seen.lock().unwrap().get(&tag).unwrap_or(&0);
     vec![mine, foreign, from_ok, hdr_ok, got]
+}
+
+/// TCP case kind 5: the target streams `n` chunks of 2 KiB, each sent on its own, then closes; the local client (small
+/// receive buffer, through the fixed TCP remote) reads nothing for 6 s, then reads to the end.  The receive window of
+/// the tunnelled stream closes meanwhile (back-pressure reaches the target); every byte must arrive, in order.
+/// result: l_len l_ok l_end t_len t_ok t_end
+async fn stalled_reader(cx: SlowCtx, n: u64, tag: u32) -> Vec<u64> {
+    let total = n as usize * 2048;
+    cx.scripts.lock().unwrap().insert(tag, TScript { shape: 11, total_local: 0, t_chunks: vec![2048; n as usize] });
+    let expect = stream_bytes(tag, 1, total);
+    let sock = tokio::net::TcpSocket::new_v4().unwrap();
+    let _ = sock.set_recv_buffer_size(4096);
+    let Ok(Ok(mut s)) = tokio::time::timeout(TMO, sock.connect(([127, 0, 0, 1], cx.tcp_port).into())).await else {
+        return vec![0, 0, 9, 0, 0, 9];
+    };
+    let _ = s.write_all(&tag.to_be_bytes()).await;
+    tokio::time::sleep(Duration::from_secs(6)).await;
+    let l = read_all(&mut s, &expect).await;
+    drop(s);
+    let mut t = None;
+    for _ in 0..700 {
+        if let Some(o) = cx.obs.lock().unwrap().remove(&tag) {
+            t = Some(o);
+            break;
+        }
+        tokio::time::sleep(Duration::from_millis(10)).await;
+    }
+    let t = t.unwrap_or(Obs { len: 0, ok: 0, end: 8 });
+    cx.scripts.lock().unwrap().remove(&tag);
+    vec![l.len, l.ok, l.end, t.len, t.ok, t.end]
 }
 
 /// UDP case kind 4: the target answers one datagram with a burst of `n` replies sent back to back (the tunnel may drop
@@ -463,10 +508,10 @@ struct V6 {
 }
 
 async fn free_tcp_port() -> u16 {
-    TcpListener::bind("127.0.0.1:0").await.unwrap().local_addr().unwrap().port()
+    alloc_port()
 }
 async fn free_udp_port() -> u16 {
-    UdpSocket::bind("127.0.0.1:0").await.unwrap().local_addr().unwrap().port()
+    alloc_port()
 }
 
 impl World {
@@ -1075,7 +1120,7 @@ impl World {
     }
 
     fn slow_ctx(&self) -> SlowCtx {
-        SlowCtx { udp_port: self.udp_port, socks_port: self.socks_port, target_udp: self.target_udp, udp_seen: self.udp_seen.clone() }
+        SlowCtx { tcp_port: self.tcp_port, scripts: self.scripts.clone(), obs: self.obs.clone(), udp_port: self.udp_port, socks_port: self.socks_port, target_udp: self.target_udp, udp_seen: self.udp_seen.clone() }
     }
 
     pub fn run_case(&self, c: &[u64]) -> Vec<u64> {
@@ -1093,6 +1138,7 @@ impl World {
         match c.first() {
             Some(3) if c.len() == 4 => self.rt.block_on(slow_udp(self.slow_ctx(), c[1], c[2], c[3], base)),
             Some(4) if c.len() == 3 => self.rt.block_on(burst_udp(self.slow_ctx(), c[1], c[2], base)),
+            Some(5) if c.len() == 3 && c[2] <= 20_000 => self.rt.block_on(stalled_reader(self.slow_ctx(), c[2], base)),
             Some(1) if c.len() >= 4 => self.rt.block_on(self.tcp_case(&c[1..], base)),
             Some(2) if c.len() >= 5 => self.rt.block_on(self.udp_case(&c[1..], base)),
             _ => vec![999_999],
@@ -1133,6 +1179,8 @@ pub fn generate(a: &Args, out: &mut Out) {
             let cx = w.slow_ctx();
             slow.push((vec![1u64, 3, entry, n, gap], w.rt.spawn(slow_udp(cx, entry, n, gap, 0x0300_0000 + k as u32))));
         }
+        // a long stream of small chunks towards a local client that does not read for a while
+        slow.push((vec![1u64, 5, 0, 5000], w.rt.spawn(stalled_reader(w.slow_ctx(), 5000, 0x0300_0010))));
     }
     // one case per (entry, shape) first
     if !a.mode.contains("random-only") {
